@@ -1,7 +1,7 @@
 (** C16 — connection IDs: limits honoured both ways, retirements reported, routing clean.
     Only statements live here; each is closed by [exact] of a lemma proved in ConnIDs/. *)
 From Coq Require Import List ZArith Bool.
-From V Require Import Gen.Params Lib.Hex ConnIDs.Model ConnIDs.ProofsGen ConnIDs.ProofsMgr ConnIDs.ProofsMgr2 ConnIDs.ProofsMgr3.
+From V Require Import Gen.Params Lib.Hex ConnIDs.Model ConnIDs.ProofsGen ConnIDs.ProofsMgr ConnIDs.ProofsMgr2 ConnIDs.ProofsMgr3 ConnIDs.Routing ConnIDs.ProofsRouting.
 Import ListNotations.
 Open Scope Z_scope.
 
@@ -138,6 +138,45 @@ Theorem C16_expired_removed_exactly : forall i cd l0 ops now,
                g_log g' = rev (map GRem (map snd gone)) ++ g_log g.
 Proof. exact gen_remove_retired_exact. Qed.
 Print Assumptions C16_expired_removed_exactly.
+
+(** (e) Transport routing table (packetHandlerMap): for every history of Add / AddWithConnID /
+    Remove / ReplaceWithClosed (positive closing period) / reset-token calls / packets /
+    passing time, a connection ID maps to a closed-connection stand-in only while a
+    closing period naming it is still running; once time has passed the last pending
+    deadline no ID maps to a closed connection and no timer is left. *)
+Theorem C16_routing_closed_expire : forall ops,
+  Forall rop_ok ops ->
+  let s := rt_run ops rt_init in
+  (forall k h, In (k, h) (rt_handlers s) -> closed_kind h ->
+     exists t ids, In (t, ids) (rt_timers s) /\ In k ids /\ rt_now s < t) /\
+  (forall d, 0 <= d -> (forall t ids, In (t, ids) (rt_timers s) -> t <= rt_now s + d) ->
+     let s' := fst (rt_step (RAdvance d) s) in
+     rt_timers s' = [] /\ forall k h, In (k, h) (rt_handlers s') -> ~ closed_kind h).
+Proof. exact routing_closed_expire. Qed.
+Print Assumptions C16_routing_closed_expire.
+
+(** (d)/(e) a connection ID that was never handed to the table does not reach any handler *)
+Theorem C16_routing_no_foreign : forall ops s k h,
+  In (k, h) (rt_handlers (rt_run ops s)) ->
+  In k (map fst (rt_handlers s)) \/ exists o, In o ops /\ named o k.
+Proof. exact routing_no_foreign. Qed.
+Print Assumptions C16_routing_no_foreign.
+
+(** closed_conn.go: the stand-in of a locally closed connection retransmits
+    CONNECTION_CLOSE for packet n iff n is a power of two; a remotely closed one never. *)
+Theorem C16_backoff_power_of_two : forall s c j,
+  hget c (rt_handlers s) = Some (HLocal j) ->
+  let v := match zget j (rt_counters s) with Some v => v | None => 0 end in
+  0 <= v -> v + 1 < 4294967296 ->
+  let r := snd (rt_step (RDeliver c) s) in
+  rr_kind r = 2 /\ (rr_sent r = 1 <-> exists k : nat, v + 1 = 2 ^ Z.of_nat k) /\ (rr_sent r = 0 \/ rr_sent r = 1).
+Proof. exact backoff_power_of_two. Qed.
+Print Assumptions C16_backoff_power_of_two.
+
+Theorem C16_remote_closed_silent : forall s c,
+  hget c (rt_handlers s) = Some HRemote -> rr_sent (snd (rt_step (RDeliver c) s)) = 0.
+Proof. exact remote_closed_silent. Qed.
+Print Assumptions C16_remote_closed_silent.
 
 (** Non-vacuity: a 13-operation history with reordering, Retire Prior To, rotation, path
     probing and a harmless retransmission satisfies the hypotheses of (b), (c), (d). *)
